@@ -161,7 +161,8 @@ PROPS["C05"] = Prop(
     generate=lambda rng, tier: G.gen_rosmock(rng, tier) + G.gen_bemock(rng, tier),
     rule=_int_rule,
     trusted=_int_trust,
-    oracle_tokens=["ORACLE_MATRIX_NOT_ALPHA_I_MINUS_J", "ORACLE_DIAGONAL_SHIFT_NOT_1_OVER_GAMMA_H",
+    oracle_tokens=["ORACLE_BE_STEP_SIZE_IN_MATRIX_NOT_AS_CONFIGURED", "ORACLE_BE_TIME_ADVANCE_NOT_THE_H_IN_THE_MATRIX",
+                   "ORACLE_MATRIX_NOT_ALPHA_I_MINUS_J", "ORACLE_DIAGONAL_SHIFT_NOT_1_OVER_GAMMA_H",
                    "ORACLE_FACTOR_BEFORE_JACOBIAN", "ORACLE_BE_MATRIX_NOT_I_OVER_H_MINUS_J"],
 )
 PROPS["C06"] = Prop(
@@ -185,6 +186,7 @@ PROPS["C07"] = Prop(
          "L=0..4 with per-species tolerances and garbage in the padding lanes",
     trusted=_int_trust,
     oracle_tokens=["ORACLE_STEP_", "ORACLE_GROWTH_", "ORACLE_REPEATED_REJECTION_CUT", "ORACLE_ACCEPT_IFF",
+                   "ORACLE_BE_STEP_SIZE_IN_MATRIX_NOT_AS_CONFIGURED",
                    "ORACLE_ERROR_NORM_NOT_RMS", "ORACLE_ISCONVERGED"],
 )
 
